@@ -538,7 +538,9 @@ func (fx *fctx) callStatic(st *State, fn *types.Func, recvExpr ast.Expr, sel *ty
 			}
 		}
 		if !fx.spec && con != nil {
+			fx.hookRecv = recv
 			fx.preCallHooks(st, ce, args)
+			fx.hookRecv = nil
 		}
 		return fx.inlineBody(st, fi.Decl.Type, fi.Decl.Body, sig, fi.Decl.Recv, recv, args, ce)
 	}
@@ -975,7 +977,9 @@ func (fx *fctx) callContract(st *State, fi *FuncInfo, con *Contract, recv *Value
 			bind[n] = args[i]
 		}
 	}
+	fx.hookRecv = recv
 	fx.preCallHooks(st, ce, args)
+	fx.hookRecv = nil
 	fx.callOrd[fi.Key]++
 	detail := fmt.Sprintf("%s.%d", fi.Key, fx.callOrd[fi.Key])
 	// function literals handed to a callee that is called by contract are never executed here; one that has a
